@@ -32,7 +32,7 @@ def info(tier):
         "canonical matrix form of the drawn data; arrays at the linprog seam compared with that form; non-trivial = "
         ">=2 variables and >=1 row; distinct = canonical (recipe, method) hashes",
         "required_cells": [f"method:{m}" for m in METHODS] + [f"ref-status:{s}" for s in ("optimal", "infeasible", "unbounded")]
-        + ["sense:min", "sense:max", "solve:1", "solve:2", "solve:3", "history:flip-sense-same-object"],
+        + ["sense:min", "sense:max", "solve:1", "solve:2", "solve:3", "history:flip-sense-same-object", "objective:deep-accumulation"],
         "assumptions": [
             "HiGHS (through SciPy) is the trusted LP solver on both sides; identical input arrays give identical verdicts",
             "generator self-check (written recipe == drawn data, exact) else inconclusive",
@@ -226,7 +226,9 @@ def run(ctx, rec):
             layout = L.LAYOUTS[(n // len(KINDS)) % len(L.LAYOUTS)]
             method = METHODS[(n + ctx.shard) % len(METHODS)]
             n += 1
-            lp = L.draw_lp(rng, layout=layout, kind=kind, risky=(n % 5 != 0))
+            lp = L.draw_lp(rng, layout=layout, kind=kind, risky=(n % 5 != 0), deep_objective=(n % 25 == 3))
+            if "deep-objective" in lp["layout"]:
+                rec.cmp(1, "objective:deep-accumulation")
             run_model(lp, method, rec, rng, seams, other)
     finally:
         seams.uninstall()
